@@ -480,6 +480,9 @@ class DecimalFieldFormat(AbstractFieldFormat):
             # TODO: limit exception handler to decimal exception or whatever decimal.Decimal raises.
             message = "value is %r but must be a decimal number: %s" % (value, error)
             raise errors.FieldValueError(message)
+        if not result.is_finite():
+            # For example "Infinity", which otherwise would be inside any range without upper limit.
+            raise errors.FieldValueError("value is %r but must be a finite decimal number" % value)
 
         try:
             self.valid_range.validate(self._field_name, result)
